@@ -37,14 +37,15 @@ import (
 // API value <-> API-shaped record
 
 // c18Stringify turns every JSON number into its decimal string (TLC integers are 32-bit) and
-// every empty object into the token "{}" (TLA+ has no empty record).
+// every empty object into the record {"empty": true} (TLA+ has no empty record; every API
+// rendering stays a record so that TLC never has to compare a record with a string).
 func c18Stringify(v any) any {
 	switch x := v.(type) {
 	case json.Number:
 		return x.String()
 	case map[string]any:
 		if len(x) == 0 {
-			return "{}"
+			return map[string]any{"empty": true}
 		}
 		o := make(map[string]any, len(x))
 		for k, e := range x {
@@ -58,21 +59,19 @@ func c18Stringify(v any) any {
 		}
 		return o
 	case nil:
-		return "null"
+		return map[string]any{"null": true}
 	}
 	return v
 }
 
-// c18Unstringify is the inverse on the way in ("{}" -> {}); decimal strings are accepted by
+// c18Unstringify is the inverse on the way in ({"empty": true} -> {}); decimal strings are accepted by
 // protojson for every numeric field.
 func c18Unstringify(v any) any {
 	switch x := v.(type) {
-	case string:
-		if x == "{}" {
+	case map[string]any:
+		if e, ok := x["empty"]; ok && len(x) == 1 && e == true {
 			return map[string]any{}
 		}
-		return x
-	case map[string]any:
 		o := make(map[string]any, len(x))
 		for k, e := range x {
 			o[k] = c18Unstringify(e)
@@ -88,22 +87,25 @@ func c18Unstringify(v any) any {
 	return v
 }
 
+// c18None: "no value" as a record
+var c18None = map[string]any{"none": true}
+
 var c18PJ = protojson.MarshalOptions{UseProtoNames: true, EmitDefaultValues: true}
 
 // c18Rec renders an API message as the API-shaped record of the spec.
 func c18Rec(m proto.Message) any {
 	if m == nil || !m.ProtoReflect().IsValid() {
-		return "nil"
+		return c18None
 	}
 	b, err := c18PJ.Marshal(m)
 	if err != nil {
-		return "protojson:" + err.Error()
+		return map[string]any{"renderr": "protojson:" + err.Error()}
 	}
 	d := json.NewDecoder(bytes.NewReader(b))
 	d.UseNumber()
 	var v any
 	if err := d.Decode(&v); err != nil {
-		return "json:" + err.Error()
+		return map[string]any{"renderr": "json:" + err.Error()}
 	}
 	return c18Stringify(v)
 }
@@ -149,6 +151,9 @@ func c18Dump(v any) string {
 	c18dump(&sb, reflect.ValueOf(v), 0)
 	return sb.String()
 }
+
+// the value of an unknown capability IS its CapValue; for every other capability CapValue is a cache
+var c18InUnknownCap bool
 
 func c18dump(sb *strings.Builder, v reflect.Value, depth int) {
 	if depth > 40 {
@@ -242,12 +247,25 @@ func c18dump(sb *strings.Builder, v reflect.Value, depth int) {
 		}
 		sb.WriteString("}")
 	case reflect.Struct:
-		sb.WriteString(t.Name() + "{")
+		name := t.Name()
+		if name == "CapUnknown" {
+			c18InUnknownCap = true
+			defer func() { c18InUnknownCap = false }()
+		}
+		if name == "SRv6L3ServiceAttribute" {
+			// two Go holders of the same SRv6 service TLV (type + sub-TLVs): not a value difference
+			name = "SRv6ServiceTLV"
+		}
+		sb.WriteString(name + "{")
 		first := true
 		for i := 0; i < t.NumField(); i++ {
 			f := t.Field(i)
 			fv := v.Field(i)
-			if (f.Name == "Length" || f.Name == "Len") && fv.CanUint() {
+			if (f.Name == "Length" || f.Name == "Len" || f.Name == "CapLen") && fv.CanUint() {
+				continue
+			}
+			if name == "DefaultParameterCapability" && f.Name == "CapValue" && !c18InUnknownCap {
+				// raw copy of the received octets kept beside the decoded fields
 				continue
 			}
 			if !first {
@@ -300,10 +318,11 @@ func c18Map(v any) c18M {
 	if v == nil {
 		return c18M{}
 	}
-	if s, ok := v.(string); ok && s == "{}" {
+	m := v.(map[string]any)
+	if e, ok := m["empty"]; ok && len(m) == 1 && e == true {
 		return c18M{}
 	}
-	return v.(map[string]any)
+	return m
 }
 func c18Has(m c18M, k string) bool { _, ok := m[k]; return ok }
 func c18S(m c18M, k string) string {
@@ -429,12 +448,13 @@ type c18Obs struct {
 	A        c18Chain    `json:"a"`
 	B        c18ApiChain `json:"b"`
 	Twin     string      `json:"twin"` // rendering of the native value built WITHOUT the native-only hint
+	TwinWire string      `json:"twinwire"`
 	Panic    string      `json:"panic"`
 	PanicAt  string      `json:"panicat"`
 }
 
 func c18EmptyChain() c18Chain {
-	return c18Chain{Api1: "none", Api3: "none"}
+	return c18Chain{Api1: c18None, Api3: c18None}
 }
 
 type c18Native struct {
@@ -550,11 +570,12 @@ func c18Err(err error) string {
 // c18RunConv: one attr / nlri / cap value through both chains.
 func c18RunConv(b *c18Behaviour) (obs c18Obs) {
 	obs = c18Obs{Ev: "Conv", K: b.K, Name: b.Name, Val: b.Val, Hint: b.Hint, A: c18EmptyChain(),
-		B: c18ApiChain{Api: "none"}}
+		B: c18ApiChain{Api: c18None}}
 	if obs.Val == nil {
-		obs.Val = "none"
+		obs.Val = c18None
 	}
-	if obs.Hint == nil {
+	delete(b.Hint, "none")
+	if len(b.Hint) == 0 {
 		obs.Hint = c18M{"none": true}
 	}
 	at := "build"
@@ -574,6 +595,7 @@ func c18RunConv(b *c18Behaviour) (obs c18Obs) {
 		n0, err = c18Example(b.Name)
 	} else {
 		n0, err = c18Build(b.K, b.Val, b.Hint)
+		delete(b.Hint, "none")
 		if err == nil && len(b.Hint) > 0 {
 			twin, err = c18Build(b.K, b.Val, nil)
 		}
@@ -585,6 +607,10 @@ func c18RunConv(b *c18Behaviour) (obs c18Obs) {
 	kind := n0.kind
 	if twin != nil {
 		obs.Twin = c18Dump(twin.value())
+		var serr string
+		if obs.TwinWire, serr = twin.serialize(); serr != "" {
+			obs.TwinWire = serr
+		}
 	}
 	// ---- chain A: native -> API -> native -> API
 	at = "render native"
